@@ -175,7 +175,7 @@ var kinds = []kindT{
 	{name: "ALPHAcs", t: trig{contains: "ALPHA?", insensitive: false}, write: "4"},
 	{name: "alphaOnce", t: trig{contains: "alpha?", insensitive: true}, write: "1", once: true},
 	{name: "alphaNoResetOnce", t: trig{contains: "alpha?", insensitive: true}, write: "1", once: true, noReset: true},
-	{name: "alphaNext", t: trig{contains: "alpha?", insensitive: true}, write: "9", next: 2 * cm.Ms},
+	{name: "alphaNext", t: trig{contains: "alpha?", insensitive: true}, write: "9", next: 4*cm.Ms + cm.Ms/2}, // room for the answer to arrive two deviations (extra cuts / held deliveries) late and off the tick grid
 }
 
 // device scripts: the k-th time a line is received the k-th response is emitted (nothing afterwards)
